@@ -289,24 +289,24 @@ pub fn run(ctx: Arc<Ctx>) {
 			},
 		}
 	}
-	// a layer whose value table has 16500 entries, every one referenced (tag indices on both sides of 2^7 and 2^14),
+	// a layer whose value table has 70000 entries, every one referenced (tag indices on both sides of 2^7, 2^14, 2^15 and 2^16),
 	// next to a small second layer
 	{
-		let n = 16500u32;
+		let n = 70000u32;
 		let values: Vec<(Enc, MVal)> = (0..n).map(|i| s(&format!("v{i}"))).collect();
 		let feats: Vec<mvt::MFeature> = (0..n).map(|i| feat(Some(i as u64), &[0, i], 1, point((i % 4000) as i32, 1))).collect();
 		let raw = mvt::encode_tile(&[layer("big", &["k"], values, feats), layer("a", &["id"], vec![s("x1")], vec![feat(Some(1), &[0, 0], 1, point(1, 1))])]);
 		let want = mvt::decode_tile(&raw).expect("big tile decodes");
 		ctx.eval();
-		let case = json!({"kind": "reencode", "tile": "layer with 16500 table entries"});
+		let case = json!({"kind": "reencode", "tile": "layer with 70000 table entries"});
 		match catch(|| VectorTile::from_blob(&Blob::from(raw.as_slice())).and_then(|t| t.to_blob())) {
 			Err(p) => ctx.violation(&format!("decode/encode of a valid vector tile panics at {}", panic_site(&p)), &p, case),
-			Ok(Err(e)) => ctx.violation(&format!("a valid vector tile cannot be decoded/encoded: {}", super::c01::norm_msg(&format!("{e:#}"))), &format!("16500 table entries: {e:#}"), case),
+			Ok(Err(e)) => ctx.violation(&format!("a valid vector tile cannot be decoded/encoded: {}", super::c01::norm_msg(&format!("{e:#}"))), &format!("70000 table entries: {e:#}"), case),
 			Ok(Ok(b)) => match mvt::decode_tile(b.as_slice()) {
-				Err(e) => ctx.violation("re-encoded vector tile is not a valid tile", &format!("16500 table entries: {e}"), case),
+				Err(e) => ctx.violation("re-encoded vector tile is not a valid tile", &format!("70000 table entries: {e}"), case),
 				Ok(got) => {
 					if let Some((clause, why)) = compare(&got, &want, "\u{0}") {
-						ctx.violation(&format!("decode -> encode without changes alters the tile: {}", clause.replace("other layer: ", "")), &format!("16500 table entries: {}", why.chars().take(300).collect::<String>()), case);
+						ctx.violation(&format!("decode -> encode without changes alters the tile: {}", clause.replace("other layer: ", "")), &format!("70000 table entries: {}", why.chars().take(300).collect::<String>()), case);
 					}
 				}
 			},
